@@ -208,6 +208,21 @@ def judge(src, trace, res, diag=None):
               dg["site"] = st
           tree_a = pyast.parse(trace["src"])
           ex_a = set(trace.get("executed_lines") or ())
+          if res.ctx is not None and defs is not None and gname in defs:
+            # the same typegraph diagnosis as for globals, on the instance's member variable
+            exitn_a = res.ctx.exitpoint
+            for b_a in defs[gname].bindings:
+              if not b_a.IsVisible(exitn_a):
+                continue
+              members = getattr(b_a.data, "members", None)
+              mvar = members.get(attr) if members is not None and hasattr(members, "get") else None
+              if mvar is None:
+                continue
+              vw_a = c01_diag.view_signature(res.ctx, mvar, path, fs, executed_lines=trace.get("executed_lines"),
+                                             def_ranges=c01_diag.def_ranges(tree_a))
+              dg["view"] = vw_a
+              if vw_a.get("found"):
+                break
           if res.ctx is not None and defs is not None:
             amb = c01_diag.ambiguous_store_signature(res.ctx, defs, trace, tree_a, gname, attr, ex_a)
             if amb:
